@@ -78,10 +78,14 @@ fn do_case(reg: &[Entry], i: usize, r: usize, mu: &str, val: &str) -> String {
 fn main() {
     std::panic::set_hook(Box::new(|_| {}));
     let reg = gen_types::registry();
+    let sreg = gen_types::slice_registry();
     let args: Vec<String> = std::env::args().collect();
     if args.len() > 1 && args[1] == "names" {
         for (i, e) in reg.iter().enumerate() {
             println!("name {} {}", i, hex((e.ser_type_name)().as_bytes()));
+        }
+        for (i, e) in sreg.iter().enumerate() {
+            println!("sname {} {} {}", i, hex((e.vec_name)().as_bytes()), hex((e.wrap_name)().as_bytes()));
         }
         return;
     }
@@ -93,6 +97,16 @@ fn main() {
         let p: Vec<&str> = line.trim().split(' ').collect();
         let ans: Option<String> = match p.as_slice() {
             ["name", ..] => None,
+            ["sname", ..] => None,
+            ["stype", i, _] => Some(format!("stype {}", i)),
+            ["ser3", i, val] => Some(match parse(val) {
+                Some(t) => (sreg[i.parse::<usize>().unwrap()].ser3)(&t),
+                None => "badval".into(),
+            }),
+            ["iter", i, val, a] => Some(match parse(val) {
+                Some(t) => (sreg[i.parse::<usize>().unwrap()].iter)(&t, a.parse().unwrap()),
+                None => "badval".into(),
+            }),
             ["type", i, _] => Some(format!("type {}", i)),
             ["case", i, r, mu, val] => Some(do_case(&reg, i.parse().unwrap(), r.parse().unwrap(), mu, val)),
             ["feed", i] => {
